@@ -392,7 +392,7 @@ def nums():
         st.integers(-10 ** 6, 10 ** 6).map(lambda i: {"t": "int", "v": i}),
         st.integers(-10 ** 40, 10 ** 40).map(lambda i: {"t": "int", "v": i}),
         st.floats(allow_nan=False, allow_infinity=False).map(lambda x: {"t": "float", "v": x}),
-        st.sampled_from([1e-05, 1e22, 1.5e300, 5e-324, -0.0, 0.1, 123456789.125, 1e16, float("inf"), float("nan")]).map(lambda x: {"t": "float", "v": x}),
+        st.sampled_from([1e-05, 1e22, 1.5e300, 5e-324, -0.0, 0.1, 123456789.125, 1e16, float("inf"), float("nan"), -1e-05, -4e16, -1e22, -5e-324, -2.5e-07, float("-inf")]).map(lambda x: {"t": "float", "v": x}),
     )
 
 
